@@ -402,8 +402,8 @@ func genMaps(b *builder, o WorldOpts) {
 	}
 	// names bound to a map that declares no subnet at all (such a client has no location; nothing another map
 	// declares may give it one)
-	if rng.Intn(3) == 0 {
-		for _, bind := range pick(rng, []string{"*.b.example.com", "example.org", "*.org", "www.example.com", "*.net", "ab.example.com"}, 1+rng.Intn(2)) {
+	if rng.Intn(2) == 0 {
+		for _, bind := range pick(rng, []string{"*.b.example.com", "example.org", "*.org", "www.example.com", "*.net", "ab.example.com", "*.example.com", "*.com"}, 2+rng.Intn(2)) {
 			if _, dup := w.Maps.Resolver[strings.ToLower(bind)]; dup {
 				continue
 			}
@@ -660,5 +660,7 @@ func ForeignLines(rng *rand.Rand, w *World, loc string) []Line {
 		l := []string{loc, "aa", "bb", "zz"}[rng.Intn(4)]
 		b.add(fmt.Sprintf("%%%s,%s,%s", OctalAll(l), cidr, OctalAll("Mz")))
 	}
+	// and always one that reaches the top of the address space (its last range point has no successor inside the map)
+	b.add(fmt.Sprintf("%%%s,%s,%s", OctalAll(loc), "ff80::/9", OctalAll("Mz")))
 	return tmp.Lines
 }
